@@ -42,23 +42,27 @@ def initSV (h0 : Heap) : Init → Option SV
   | .dict => some (.cell (.dict "dict" []))
   | .odict => some (.cell (.dict "OrderedDict" []))
   | .acc => some (.cell (.list "Acc" []))
+  | .set => some (.cell (.set "set" []))
+  | .notCallable => none
   | .copyOf v => load h0 v          -- a NEW object holding what OBJ holds
   | .shared v => load h0 v
 
 /-- the value of `op(acc, v)` as `functools.reduce` sees it (what the call returns) -/
-def foldRet : OpRes → SV
+def foldRet (acc : SV) : OpRes → SV
   | .value sv => sv
   | .inplaceSelf o => .cell o
   | .inplaceNone _ => .imm .none
+  | .writeOther _ _ => acc
 
 /-- the value of `acc` after `op(acc, v)` was called for its effect (Merge) -/
 def mergeRet (acc : SV) : OpRes → SV
   | .value _ => acc
   | .inplaceSelf o => .cell o
   | .inplaceNone o => .cell o
+  | .writeOther _ _ => acc
 
 def foldStep (f : OpFn) (h0 : Heap) (sv : SV) (v : Val) : Except Err SV :=
-  (f h0 sv v).map foldRet
+  (f h0 sv v).map (foldRet sv)
 
 def mergeStep (f : OpFn) (h0 : Heap) (sv : SV) (v : Val) : Except Err SV :=
   (f h0 sv v).map (mergeRet sv)
@@ -112,11 +116,11 @@ def withInit (h0 : Heap) (i : Init) (f : SV → Except Err SV) : RefRes :=
 /-- the reduction proper, given the items -/
 def refKind (h0 : Heap) (s : FoldSpec) (items : List Val) : RefRes :=
   match s.kind with
-  | .fold => withInit h0 s.init (refReduce (foldStep (pyOp s.op) h0) items)
+  | .fold => withInit h0 s.init (refReduce (foldStep (guardOp (pyOp s.op)) h0) items)
   | .flatten =>
     if s.lazy then .new (.tuple "chain" items)
-    else withInit h0 s.init (refReduce (foldStep (pyOp s.op) h0) items)
-  | .merge => withInit h0 s.init (refReduce (mergeStep (pyOp s.op) h0) items)
+    else withInit h0 s.init (refReduce (foldStep (guardOp (pyOp s.op)) h0) items)
+  | .merge => withInit h0 s.init (refReduce (mergeStep (guardOp (pyOp s.op)) h0) items)
 
 /-- one evaluation of a spec object, as a value -/
 def refSpec (env : Env) (h0 : Heap) (s : FoldSpec) (target : Val) : RefRes :=
@@ -131,6 +135,7 @@ def refFlattenFn (env : Env) (h0 : Heap) (sub : List Val) (init : InitArg) (leve
     RefRes :=
   if levels == 0 then .same target
   else if levels < 0 then .err (.raised "ValueError")
+  else if init == .init .notCallable then .err typeErr
   else
     match refItems env h0 sub target with
     | .error e => .err e
@@ -140,11 +145,13 @@ def refFlattenFn (env : Env) (h0 : Heap) (sub : List Val) (init : InitArg) (leve
       | some ys =>
         match init with
         | .lazy => .new (.tuple "chain" ys)
-        | .init i => withInit h0 i (refReduce (foldStep (pyOp .iadd) h0) ys)
+        | .init i => withInit h0 i (refReduce (foldStep (guardOp (pyOp .iadd)) h0) ys)
 
 /-- the op a Merge ends up with -/
 def refMergeOp (h0 : Heap) (init : Init) (op : MergeOpArg) : Except Err Op :=
+  let direct (o : Op) : Except Err Op := if init == .notCallable then .error typeErr else .ok o
   let byName (n : String) : Except Err Op :=
+    if init == .notCallable then .error typeErr else
     match initSV h0 init with
     | some (.cell o) => match methodOf o.cls n with
       | some o => .ok o
@@ -156,8 +163,10 @@ def refMergeOp (h0 : Heap) (init : Init) (op : MergeOpArg) : Except Err Op :=
   match op with
   | .none => byName "update"
   | .name n => byName n
-  | .iadd => .ok .iadd
-  | .firstWins => .ok .firstWins
+  | .iadd => direct .iadd
+  | .firstWins => direct .firstWins
+  | .dictUnion => direct .dictUnion
+  | .notCallable => .error (.raised "ValueError")
 
 def refMerge (env : Env) (h0 : Heap) (sub : List Val) (init : Init) (op : MergeOpArg) (target : Val) : RefRes :=
   match refMergeOp h0 init op with
@@ -174,6 +183,14 @@ def refProg (env : Env) (h0 : Heap) (p : Prog) (target : Val) : RefRes :=
   | .merge sub i op => refMerge env h0 sub i op target
   | .flattenFn sub i l => refFlattenFn env h0 sub i l target
   | .mergeFn sub i op => refMerge env h0 sub i op target
+  | .oddCall c =>
+    match c with
+    | .extraKw => .err typeErr
+    | .levelsNone => .err typeErr
+    | .levelsFloat bits =>
+      match floatOfHex bits with
+      | none => .err typeErr
+      | some x => if x == 0 then .same target else if x < 0 then .err (.raised "ValueError") else .err typeErr
 
 /-! ### vocabulary of the special-case theorems -/
 
@@ -233,7 +250,10 @@ def showNew (env : Env) (h : Heap) (o : Obj) : R :=
   | .tuple c xs =>
     if c == "chain" then
       match joinWith (rawIter1 h) xs with
-      | some ys => .fresh (.tuple "chain" ys)
+      | some ys =>
+        match firstRaise ys with
+        | some c => errR env (.raised c)          -- the source raises while the chain is consumed
+        | none => .fresh (.tuple "chain" ys)
       | none => errR env typeErr
     else .fresh o
   | _ => .fresh o
@@ -301,6 +321,16 @@ def Prog.initAllocates : Prog → Bool
   | .merge _ i _ => i.allocates
   | .flattenFn _ i _ => i.allocates
   | .mergeFn _ i _ => i.allocates
+  | .oddCall _ => true
+
+/-- "`op` is lawful": it does not write to anything but its accumulator -/
+def Prog.opLawful : Prog → Bool
+  | .fold _ _ op => op != .pokeElem
+  | _ => true
+
+/-- the hypotheses under which the property speaks about a run at all: `init` allocates, `op` writes
+    to nothing but its accumulator -/
+def Prog.hyps (p : Prog) : Bool := p.initAllocates && p.opLawful
 
 def Val.inb (n : Nat) : Val → Bool
   | .ref a => a < n
@@ -323,6 +353,10 @@ def objNotChain : Obj → Bool
 def closedHeap (h : Heap) : Bool :=
   h.all (fun o => (cellVals o).all (Val.inb h.length) && objNotChain o)
 
+/-- no generator of the heap raises: no raise-marker is stored in any cell -/
+def noMarkers (h : Heap) : Bool :=
+  h.all (fun o => (cellVals o).all (fun v => (raiseMarker v).isNone))
+
 def Init.vals : Init → List Val
   | .shared v => [v]
   | .copyOf v => [v]
@@ -340,26 +374,32 @@ def progVals : Prog → List Val
   | .merge s i _ => s ++ i.vals
   | .flattenFn s i _ => s ++ i.vals
   | .mergeFn s i _ => s ++ i.vals
+  | .oddCall _ => []
 
 /-- `lambda: type(OBJ)(OBJ)` is only built over a list / tuple / dict object (or an immediate) -/
 def Init.wf (h0 : Heap) : Init → Bool
   | .copyOf (.ref a) => match h0[a]? with
     | some o => copyable o
     | none => false
+  | .notCallable => false            -- never called: the constructors refuse it (`Prog.initWF` lets it pass)
   | _ => true
+
+/-- … or it is not callable at all, and the constructor says so -/
+def Init.wfOrRefused (h0 : Heap) (i : Init) : Bool := i == .notCallable || i.wf h0
 
 def InitArg.wf (h0 : Heap) : InitArg → Bool
   | .lazy => true
-  | .init i => i.wf h0
+  | .init i => i.wfOrRefused h0
 
 def Prog.initWF (h0 : Heap) : Prog → Bool
-  | .fold _ i _ => i.wf h0
-  | .sum _ i => i.wf h0
+  | .fold _ i _ => i.wfOrRefused h0
+  | .sum _ i => i.wfOrRefused h0
   | .count => true
   | .flatten _ i => i.wf h0
-  | .merge _ i _ => i.wf h0
+  | .merge _ i _ => i.wfOrRefused h0
   | .flattenFn _ i _ => i.wf h0
-  | .mergeFn _ i _ => i.wf h0
+  | .mergeFn _ i _ => i.wfOrRefused h0
+  | .oddCall _ => true
 
 /-- well-formed case: the heap is closed and targets point into it -/
 def wfCase (h0 : Heap) (targets : List Val) : Bool :=
@@ -372,7 +412,7 @@ def wfCase (h0 : Heap) (targets : List Val) : Bool :=
     reference reduction computes — in particular a container result is a *new*
     object (never an input, never an earlier result). -/
 def checkC15 (env : Env) (h0 : Heap) (p : Prog) (targets : List Val) (obs : Obs) : Bool :=
-  !p.initAllocates ||
+  !p.hyps ||
   (obs.after == h0 && obs.results == targets.map (expectR env h0 p))
 
 /-- what the property expects a HISTORY to show: every evaluation reduces over the iteration the
@@ -381,11 +421,18 @@ def expectAll (H : Hier) (env : Env) (h0 : Heap) (p : Prog) : List Event → Reg
   | [], _ => []
   | .eval t :: es, r => expectR (envOf H env r) h0 p t :: expectAll H env h0 p es r
   | .register c e kw :: es, r => expectAll H env h0 p es (C13.register H r c e kw)
+  | .probe _ :: es, r => expectAll H env h0 p es r       -- a lookup registers nothing: the tables are the same
+
+/-- … of a whole run: a spec class whose constructor refuses its arguments evaluates nothing -/
+def expectHistory (H : Hier) (env : Env) (h0 : Heap) (p : Prog) (events : List Event) (r : Reg) : List R :=
+  match ctorErr p with
+  | some e => (Event.targets events).map (fun _ => errR env e)
+  | none => expectAll H env h0 p events r
 
 /-- The property evaluated on the observation of a history against the registry `r0`. -/
 def checkC15R (H : Hier) (env : Env) (r0 : Reg) (h0 : Heap) (p : Prog) (events : List Event) (obs : Obs) : Bool :=
-  !p.initAllocates ||
-  (obs.after == h0 && obs.results == expectAll H env h0 p events r0)
+  !p.hyps ||
+  (obs.after == h0 && obs.results == expectHistory H env h0 p events r0)
 
 /-! ### well-formedness of the extracted facts -/
 
@@ -411,64 +458,88 @@ def chainIterAlong (H : Hier) (env : Env) : List Event → Reg → Bool
   | [], _ => true
   | .eval _ :: es, r => chainIter (envOf H env r) && chainIterAlong H env es r
   | .register c e kw :: es, r => chainIterAlong H env es (C13.register H r c e kw)
+  | .probe _ :: es, r => chainIterAlong H env es r
 
 /-- the documented default registrations, as answers of a handler table -/
 def defaultsOK (lk : String → Except IterErr String) : Bool :=
   ["list", "tuple", "dict", "OrderedDict", "set", "frozenset"].all (fun c => decide (lk c = .ok "iter")) &&
   ["object", "int", "bool", "float", "NoneType", "str", "bytes"].all (fun c => decide (lk c = .error .unregistered))
 
-/-- source-shape facts of glom/reduction.py the model's control flow is a transcription of -/
+/-- source-shape facts of glom/reduction.py and grouping.target_iter the model's control flow is a
+    transcription of: EVERY statement of every method (canonical form: parameters a0…, locals v0… in
+    order of first binding, `raise X(…)` cut to `raise X`, docstrings dropped), the methods and bases
+    of every class, what the module defines, and every write to `self` outside a constructor -/
 structure SrcFacts where
-  initCalls : List String
   defaults : List (String × String × String)
   superArgs : List (String × String × String)
-  ctorLogic : List (String × String × String)
-  foldBodies : List (String × String × String)
-  flattenFn : List (String × String)
-  mergeFn : List (String × String)
-  targetIter : List (String × String)
+  bodies : List (String × List String)
+  methods : List (String × List String)
+  module : List String
+  selfWrites : List String
   absIterExcluded : List String
   registerResetsMemo : Bool
 
 def has3 (t : List (String × String × String)) (a b c : String) : Bool := t.contains (a, b, c)
 
+def bodyOf (f : SrcFacts) (n : String) : Option (List String) := (f.bodies.find? (·.1 == n)).map (·.2)
+def membersOf (f : SrcFacts) (n : String) : Option (List String) := (f.methods.find? (·.1 == n)).map (·.2)
+
+def foldLoopBody (callLine : String) : List String :=
+  ["v0, v1 = (self.init(), self.op)", "for v2 in a0:", callLine, "return v0"]
+
 def WFSrc (f : SrcFacts) : Bool :=
-  -- init() is called inside _fold (once per evaluation), never hoisted into a constructor of Fold
-  f.initCalls.contains "Fold._fold" && f.initCalls.contains "Merge._fold" &&
-  !(f.initCalls.contains "Fold.__init__") && !(f.initCalls.contains "Sum.__init__") &&
-  !(f.initCalls.contains "Flatten.__init__") && !(f.initCalls.contains "Fold.glomit") &&
+  -- the bodies, statement by statement
+  bodyOf f "Fold.__init__" == some ["self.subspec = a0", "self.init = a1", "self.op = a2",
+    "if not callable(a2):", "  raise TypeError", "if not callable(a1):", "  raise TypeError"] &&
+  bodyOf f "Fold.glomit" == some ["v0 = False",
+    "if a1[MODE] is GROUP and a1.get(CUR_AGG) is None:", "  a1[CUR_AGG] = self", "  v0 = True",
+    "if self.subspec is not T:", "  a0 = a1[glom](a0, self.subspec, a1)",
+    "if v0:", "  return self._agg(a0, a1[ACC_TREE])",
+    -- ONLY the call of target_iter is inside the try; `_fold` runs after it
+    "try:", "  v1 = target_iter(a0, a1)", "except UnregisteredTarget as v2:", "  raise FoldError",
+    "return self._fold(v1)"] &&
+  bodyOf f "Fold._fold" == some (foldLoopBody "  v0 = v1(v0, v2)") &&
+  bodyOf f "Merge._fold" == some (foldLoopBody "  v1(v0, v2)") &&
+  bodyOf f "Flatten._fold" == some ["if self.lazy:", "  return itertools.chain.from_iterable(a0)",
+    "return super()._fold(a0)"] &&
+  bodyOf f "Sum.__init__" == some ["super().__init__(subspec=a0, init=a1, op=operator.iadd)"] &&
+  bodyOf f "Count.__init__" == some ["super().__init__(subspec=T, init=int, op=lambda cur, val: cur + 1)"] &&
+  bodyOf f "Flatten.__init__" == some ["if a1 == 'lazy':", "  self.lazy = True", "  a1 = list", "else:",
+    "  self.lazy = False", "super().__init__(subspec=a0, init=a1, op=operator.iadd)"] &&
+  bodyOf f "Merge.__init__" == some ["if a2 is None:", "  a2 = 'update'", "if isinstance(a2, basestring):",
+    "  v0 = a1()", "  a2 = getattr(type(v0), a2, None)", "if not callable(a2):", "  raise ValueError",
+    "super().__init__(subspec=a0, init=a1, op=a2)"] &&
+  bodyOf f "flatten" == some ["v0 = a1.pop('spec', T)", "v1 = a1.pop('init', list)", "v2 = a1.pop('levels', 1)",
+    "if a1:", "  raise TypeError", "if v2 == 0:", "  return a0", "if v2 < 0:", "  raise ValueError",
+    "v3 = (v0,)", "v3 += (Flatten(init='lazy'),) * (v2 - 1)", "v3 += (Flatten(init=v1),)",
+    "return glom(a0, v3)"] &&
+  bodyOf f "merge" == some ["v0 = a1.pop('spec', T)", "v1 = a1.pop('init', dict)", "v2 = a1.pop('op', None)",
+    "if a1:", "  raise TypeError", "v3 = Merge(v0, v1, v2)", "return glom(a0, v3)"] &&
+  -- target_iter: the lookup is OUTSIDE the try, the handler call inside, `except Exception` → TypeError
+  bodyOf f "target_iter" == some [
+    "v0 = a1[TargetRegistry].get_handler('iterate', a0, path=a1[Path])",
+    "try:", "  v1 = v0(a0)", "except Exception as v2:", "  raise TypeError", "return v1"] &&
+  -- no other method, no other base, nothing else at module level: an override (say a `Flatten.glomit`)
+  -- or a monkey-patch would show here
+  membersOf f "Fold" == some ["__init__", "glomit", "_fold", "_agg", "__repr__"] &&
+  membersOf f "Sum" == some ["__init__", "__repr__"] &&
+  membersOf f "Count" == some ["<__slots__ = ()>", "__init__", "__repr__"] &&
+  membersOf f "Flatten" == some ["__init__", "_fold", "__repr__"] &&
+  membersOf f "Merge" == some ["__init__", "_fold", "_agg"] &&
+  membersOf f "FoldError" == some [] &&
+  membersOf f "Fold.__bases__" == some [] && membersOf f "Sum.__bases__" == some ["Fold"] &&
+  membersOf f "Count.__bases__" == some ["Fold"] && membersOf f "Flatten.__bases__" == some ["Fold"] &&
+  membersOf f "Merge.__bases__" == some ["Fold"] && membersOf f "FoldError.__bases__" == some ["GlomError"] &&
+  f.module == ["<_MISSING = make_sentinel('_MISSING')>", "<try: basestring except NameError: basestring = str>",
+    "FoldError", "Fold", "Sum", "Count", "Flatten", "flatten", "Merge", "merge"] &&
+  -- a spec object is not written to once it is built (what `lazy`, `init`, `op` say stays what the
+  -- constructor made of its arguments): no store to `self` outside `__init__`
+  f.selfWrites.isEmpty &&
   -- defaults
   has3 f.defaults "Fold" "op" "operator.iadd" && has3 f.defaults "Sum" "init" "int" &&
   has3 f.defaults "Sum" "subspec" "T" && has3 f.defaults "Flatten" "init" "list" &&
   has3 f.defaults "Flatten" "subspec" "T" && has3 f.defaults "Merge" "init" "dict" &&
   has3 f.defaults "Merge" "op" "None" && has3 f.defaults "Merge" "subspec" "T" &&
-  -- what the subclasses hand to Fold.__init__
-  has3 f.superArgs "Sum" "op" "operator.iadd" && has3 f.superArgs "Sum" "init" "init" &&
-  has3 f.superArgs "Count" "init" "int" && has3 f.superArgs "Count" "subspec" "T" &&
-  has3 f.superArgs "Count" "op" "lambda cur, val: cur + 1" &&
-  has3 f.superArgs "Flatten" "op" "operator.iadd" && has3 f.superArgs "Flatten" "init" "init" &&
-  has3 f.superArgs "Merge" "op" "op" && has3 f.superArgs "Merge" "init" "init" &&
-  has3 f.ctorLogic "Flatten" "init == 'lazy'" "self.lazy = True; init = list" &&
-  has3 f.ctorLogic "Merge" "op is None" "op = 'update'" &&
-  has3 f.ctorLogic "Merge" "isinstance(op, basestring)" "test_init = init(); op = getattr(type(test_init), op, None)" &&
-  -- the loops
-  f.foldBodies == [
-    ("Fold._fold", "init", "ret, op = (self.init(), self.op)"), ("Fold._fold", "for", "for v in iterator"),
-    ("Fold._fold", "body", "ret = op(ret, v)"), ("Fold._fold", "return", "return ret"),
-    ("Merge._fold", "init", "ret, op = (self.init(), self.op)"), ("Merge._fold", "for", "for v in iterator"),
-    ("Merge._fold", "body", "op(ret, v)"), ("Merge._fold", "return", "return ret"),
-    ("Flatten._fold", "if self.lazy", "return itertools.chain.from_iterable(iterator)"),
-    ("Flatten._fold", "else", "return super()._fold(iterator)")] &&
-  f.flattenFn == [
-    ("if levels == 0", "return target"), ("if levels < 0", "raise ValueError"),
-    ("spec", "spec = (subspec,)"), ("spec", "spec += (Flatten(init='lazy'),) * (levels - 1)"),
-    ("spec", "spec += (Flatten(init=init),)"), ("return", "return glom(target, spec)")] &&
-  f.mergeFn == [("spec", "spec = Merge(subspec, init, op)"), ("return", "return glom(target, spec)")] &&
-  -- target_iter: the lookup is OUTSIDE the try, the handler call inside, `except Exception` → TypeError
-  f.targetIter == [
-    ("assign", "iterate = scope[TargetRegistry].get_handler('iterate', target, path=scope[Path])"),
-    ("try", "iterator = iterate(target)"), ("except Exception", "raise TypeError"),
-    ("return", "return iterator")] &&
   f.absIterExcluded.contains "str" && f.absIterExcluded.contains "bytes" &&
   -- `register` ends with an unconditional reset of the lookup memo (the shape `C13.register` transcribes)
   f.registerResetsMemo
